@@ -219,7 +219,7 @@ func verifProp_C15_Decode() func(*rapid.T) {
 			a = big.NewInt(5)
 		}
 		valid := sm2ref.Encode(sm2ref.Mul(a, sm2ref.G))
-		cls := gen.Pick(t, "class", "valid", "bitflip", "bitflip", "prefix", "length", "x+p", "y>=p", "negY", "infinity", "uniform", "truncate", "extend")
+		cls := gen.Pick(t, "class", "valid", "bitflip", "bitflip", "prefix", "length", "x+p", "y>=p", "negY", "infinity", "uniform", "truncate", "extend", "limb-near-miss", "limb-near-miss")
 		b := append([]byte(nil), valid...)
 		switch cls {
 		case "bitflip":
@@ -262,6 +262,46 @@ func verifProp_C15_Decode() func(*rapid.T) {
 		case "negY":
 			y := new(big.Int).SetBytes(b[33:])
 			copy(b[33:], gen.Pad32(new(big.Int).Sub(gen.P, y)))
+		case "limb-near-miss":
+			// off-curve (x, y') whose y'^2 agrees with x^3-3x+b in most of the implementation's representation: the 4x64-bit
+			// Montgomery (or plain) limbs of the right-hand side are changed only in a chosen part (high half / low half / one bit of
+			// one limb), then y' is a square root of that value. A curve check that compares limbs partially accepts it.
+			for try := 0; try < 40; try++ {
+				x := new(big.Int).SetBytes(valid[1:33])
+				rhs := new(big.Int).Exp(x, big.NewInt(3), gen.P)
+				rhs.Sub(rhs, new(big.Int).Mul(big.NewInt(3), x)).Add(rhs, sm2ref.B).Mod(rhs, gen.P)
+				mont := gen.Bool(t, "montdomain")
+				v := new(big.Int).Set(rhs)
+				if mont {
+					v.Lsh(v, 256).Mod(v, gen.P)
+				}
+				limb := gen.Uniform(t, "limb", 0, 3)
+				var mask uint64
+				switch gen.Pick(t, "part", "high32", "low32", "onebit", "high32-all") {
+				case "high32":
+					mask = uint64(gen.Uniform(t, "m", 1, 1<<31-1)) << 32
+				case "low32":
+					mask = uint64(gen.Uniform(t, "m", 1, 1<<31-1))
+				case "onebit":
+					mask = 1 << uint(gen.Uniform(t, "bitpos", 0, 63))
+				case "high32-all":
+					mask = 0xffffffff00000000
+				}
+				v.Xor(v, new(big.Int).Lsh(new(big.Int).SetUint64(mask), uint(64*limb)))
+				if v.Cmp(gen.P) >= 0 {
+					continue
+				}
+				if mont {
+					rinv := new(big.Int).ModInverse(new(big.Int).Lsh(big.NewInt(1), 256), gen.P)
+					v.Mul(v, rinv).Mod(v, gen.P)
+				}
+				y, ok := sm2ref.SqrtP(v)
+				if !ok {
+					continue
+				}
+				copy(b[33:], gen.Pad32(y))
+				break
+			}
 		case "infinity":
 			b = []byte{0}
 		case "uniform":
